@@ -2,7 +2,7 @@
 C09 — the dispatch of the public entry points `ml.load / loads / load_all / loads_all / dump / dumps`
 (molli/reader.py, molli/writer.py) over the full configuration matrix of the property.
 
-A `Cell` is one configuration; an `Action` is what an entry point *does* in that cell, in terms that can be
+A `Cell` is one configuration (the five dimensions of the property, `Config`, plus the form of a path argument); an `Action` is what an entry point *does* in that cell, in terms that can be
 observed from outside by spying on the class-level codec methods:
 
   * which class method was reached first (class it was invoked on, operation, codec),
@@ -34,7 +34,8 @@ inductive OType | molecule | ensemble | structure
 inductive NameArg | given | notGiven
   deriving DecidableEq, Repr
 
-structure Cell where
+/-- the five dimensions the property names -/
+structure Config where
   entry : Entry
   fmt : Fmt
   kind : Kind
@@ -101,7 +102,7 @@ def Kind.all : List Kind := [.path, .stream, .str]
 def OType.all : List OType := [.molecule, .ensemble, .structure]
 def NameArg.all : List NameArg := [.given, .notGiven]
 
-def allCells : List Cell :=
+def allConfigs : List Config :=
   Entry.all.flatMap fun e => Fmt.all.flatMap fun f => Kind.all.flatMap fun k =>
     OType.all.flatMap fun o => NameArg.all.map fun n => ⟨e, f, k, o, n⟩
 
@@ -117,14 +118,14 @@ def NameArg.idx : NameArg → Nat
   | .given => 0 | .notGiven => 1
 
 /-- row of a cell in the generated table (row-major over entry, fmt, kind, otype, name) -/
-def Cell.idx (c : Cell) : Nat :=
+def Config.idx (c : Config) : Nat :=
   (((c.entry.idx * 4 + c.fmt.idx) * 3 + c.kind.idx) * 3 + c.otype.idx) * 2 + c.name.idx
 
 /-! ### the specification -/
 
 /-- Domain of each entry point (signature level): `load`/`load_all` read a path, `loads`/`loads_all` a string,
 `dump` writes to a path or an open stream, `dumps` returns a string; `dump`/`dumps` take no `name`. -/
-def applicable (c : Cell) : Bool :=
+def applicableCfg (c : Config) : Bool :=
   match c.entry, c.kind, c.name with
   | .load, .path, _ => true
   | .loadAll, .path, _ => true
@@ -155,7 +156,7 @@ def refuse (e : Exc) : Action :=
     named := false, wrote := .nothing, streamOk := true }
 
 /-- kind of value the class-level codec of the cell returns -/
-def retKind (c : Cell) : RetKind :=
+def retKind (c : Config) : RetKind :=
   match c.entry with
   | .load | .loads => .obj c.otype.cls
   | .loadAll | .loadsAll => .list c.otype.cls
@@ -163,7 +164,7 @@ def retKind (c : Cell) : RetKind :=
   | .dumps => .text
 
 /-- where the text goes -/
-def target (c : Cell) : Target :=
+def target (c : Config) : Target :=
   match c.entry, c.kind with
   | .dump, .stream => .callerStream
   | .dump, _ => .pathFile
@@ -172,7 +173,7 @@ def target (c : Cell) : Target :=
 
 /-- The entry point hands the request to the class-level codec `m` and returns / writes exactly what that does
 (`raises`: the class method fails by itself on this input — then its exception comes through). -/
-def viaCodec (c : Cell) (m : Reach) (raises : Bool) : Action :=
+def viaCodec (c : Config) (m : Reach) (raises : Bool) : Action :=
   { applicable := true, reached := m, nameFwd := c.name == .given, argOk := true,
     result := if raises then .propagated else .returned (retKind c),
     named := !raises && c.entry.isLoader && c.name == .given,
@@ -183,9 +184,9 @@ def viaCodec (c : Cell) (m : Reach) (raises : Bool) : Action :=
 itself on the probe input -/
 abbrev ClassRaises := OType → Entry → Fmt → Bool
 
-/-- What the property demands in every cell of the matrix. -/
-def spec (cr : ClassRaises) (c : Cell) : Action :=
-  if !applicable c then Action.na
+/-- What the property demands for the five dimensions it names (a path argument carrying the matching suffix). -/
+def specCfg (cr : ClassRaises) (c : Config) : Action :=
+  if !applicableCfg c then Action.na
   -- "lists where lists are promised": a list loader cannot deliver a ConformerEnsemble (which is itself the
   -- collection of all frames): there is no class-level `load_all_*` on ConformerEnsemble; the request is refused.
   else if c.entry.listPromised && c.otype == .ensemble then refuse .valueError
@@ -202,6 +203,52 @@ def spec (cr : ClassRaises) (c : Cell) : Action :=
     | .dump | .dumps => refuse .valueError
   | f => viaCodec c (.meth c.otype.cls c.entry.mop f) (cr c.otype c.entry f)
 
+/-! ### the form of a path argument
+
+The property speaks of "the source or target kind (path, …)" and of "each supported format": a *path* can name its
+format a second time, by its suffix.  An explicit format always wins; the suffix only matters when no format is given.
+This dimension applies to path sources / targets only. -/
+
+inductive PathForm
+  /-- explicit format, the path carries the suffix of that format -/
+  | explicitMatching
+  /-- explicit format, the path has no suffix -/
+  | explicitNoSuffix
+  /-- explicit format, the path carries the suffix of ANOTHER supported format -/
+  | explicitOtherSuffix
+  /-- explicit format, the path carries a suffix that names no supported format -/
+  | explicitUnsupportedSuffix
+  /-- no format given: it is deduced from the (matching) suffix -/
+  | deduced
+  deriving DecidableEq, Repr
+
+def PathForm.all : List PathForm :=
+  [.explicitMatching, .explicitNoSuffix, .explicitOtherSuffix, .explicitUnsupportedSuffix, .deduced]
+
+def PathForm.idx : PathForm → Nat
+  | .explicitMatching => 0 | .explicitNoSuffix => 1 | .explicitOtherSuffix => 2
+  | .explicitUnsupportedSuffix => 3 | .deduced => 4
+
+/-- one cell of the configuration matrix: 6 × 4 × 3 × 3 × 2 × 5 = 2160 -/
+structure Cell extends Config where
+  form : PathForm
+  deriving DecidableEq, Repr
+
+def allCells : List Cell := allConfigs.flatMap fun b => PathForm.all.map fun p => ⟨b, p⟩
+
+/-- row of a cell in the generated table -/
+def Cell.idx (c : Cell) : Nat := c.toConfig.idx * 5 + c.form.idx
+
+/-- the path form is a dimension of path sources / targets only; elsewhere only the first value is a cell -/
+def formApplicable (c : Cell) : Bool := c.form == .explicitMatching || c.kind == .path
+
+def applicable (c : Cell) : Bool := applicableCfg c.toConfig && formApplicable c
+
+/-- What the property demands in every cell of the matrix: the form of the path changes NOTHING — an explicit
+format wins over any suffix, a missing format is the one the suffix names. -/
+def spec (cr : ClassRaises) (c : Cell) : Action :=
+  if formApplicable c then specCfg cr c.toConfig else Action.na
+
 /-! ### canonical text form (driver) -/
 
 def Entry.txt : Entry → String
@@ -214,6 +261,10 @@ def OType.txt : OType → String
   | .molecule => "molecule" | .ensemble => "ensemble" | .structure => "structure"
 def NameArg.txt : NameArg → String
   | .given => "given" | .notGiven => "notGiven"
+def PathForm.txt : PathForm → String
+  | .explicitMatching => "explicitMatching" | .explicitNoSuffix => "explicitNoSuffix"
+  | .explicitOtherSuffix => "explicitOtherSuffix" | .explicitUnsupportedSuffix => "explicitUnsupportedSuffix"
+  | .deduced => "deduced"
 def Cls.txt : Cls → String
   | .molecule => "molecule" | .ensemble => "ensemble" | .structure => "structure" | .cdxmlFile => "cdxmlFile" | .other => "other"
 def MOp.txt : MOp → String
@@ -241,5 +292,6 @@ def Fmt.parse? (s : String) : Option Fmt := Fmt.all.find? (·.txt == s)
 def Kind.parse? (s : String) : Option Kind := Kind.all.find? (·.txt == s)
 def OType.parse? (s : String) : Option OType := OType.all.find? (·.txt == s)
 def NameArg.parse? (s : String) : Option NameArg := NameArg.all.find? (·.txt == s)
+def PathForm.parse? (s : String) : Option PathForm := PathForm.all.find? (·.txt == s)
 
 end Molli.Model.Dispatch
